@@ -34,3 +34,13 @@ From KV Require Import StateGen StateBase StateImportProofs.
 Theorem C18_state_as_modelled : state_import = modelled_state_import.
 Proof. exact state_import_as_modelled. Qed.
 Print Assumptions C18_state_as_modelled.
+
+(* WHICH lines open a measure, for every state the importer can reach and every line: the measure index grows by the
+   stage of the line exactly when one of its ordinary cells (no header, no spine operator) holds a token of category
+   BARLINES - whatever the type of the spine the cell stands in - or a token under CORE while no measure is open yet;
+   comment lines and blank lines never change it.  (The tokens are those of C02_tree_holds_the_source_grid.) *)
+From KV Require Import Importer TreeProofs GridTokensProofs MeasureStartProofs.
+Theorem C18_barlines_open_measures_under_every_spine_type : forall bad s row s', state_ok s -> hdr_ok (i_doc s) ->
+  step_row bad s row = IOk s' -> measure_step_spec s row s'.
+Proof. exact step_row_measure_spec. Qed.
+Print Assumptions C18_barlines_open_measures_under_every_spine_type.
